@@ -1364,5 +1364,5 @@ def run(ctx: Ctx, rep: Report, tier: str) -> None:
 
 
 # what the later rounds (seeding rounds 2-5, refactor twins, defect hunt) added to what the check decides
-LATER_ROUNDS = "the memo is never handed out itself nor grown in place, the limit reaches every object the config-level drivers build, the limit error is never swallowed by a skipping handler, a refused address line changes nothing"
+LATER_ROUNDS = "the memo is never handed out itself nor grown in place, the limit reaches every object the config-level drivers build, the limit error is never swallowed by a skipping handler, a refused address line changes nothing, an inverted wildcard mask is tested before it is read as a net mask, no module-level cache feeds the prefixes"
 EXPLANATION = EXPLANATION.replace(" Does not decide", " Later rounds added: " + LATER_ROUNDS + ". Does not decide", 1) if " Does not decide" in EXPLANATION else EXPLANATION + " Later rounds added: " + LATER_ROUNDS + "."
